@@ -41,6 +41,8 @@ type Job struct {
 	Known      map[string]bool
 	Inductive  bool
 	NoNarrow   bool
+	MergeBlind bool // merged callees: treat every alternative as feasible (no solver)
+	SkipInc    bool // assertions go straight to the portfolio
 	// ExpectViolation: used by self-tests only
 }
 
@@ -124,6 +126,9 @@ func runJob(prog *ssa.Program, pkgs map[string]*ssa.Package, job *Job) (res *Job
 	}
 	if job.TimeoutS == 0 {
 		job.TimeoutS = 60
+	}
+	if t := os.Getenv("GOSYM_TIMEOUT"); t != "" {
+		fmt.Sscanf(t, "%d", &job.TimeoutS)
 	}
 	if job.IncMs == 0 {
 		job.IncMs = 3000
@@ -287,7 +292,8 @@ func (ex *Exec) assert(label string, c *Term, pos string) {
 	t0 := time.Now()
 	// quick attempt on the incremental solver
 	r := "unknown"
-	if !neg.IsConst() {
+	if ex.job.SkipInc {
+	} else if !neg.IsConst() {
 		r = ex.inc.CheckWith(neg)
 	} else if neg.BoolVal() {
 		r = ex.inc.Check()
@@ -399,6 +405,7 @@ func (ex *Exec) callMerged(caller *frame, fn *ssa.Function, args []value, env []
 	ex.pcPos = base
 	ex.journalOn = true
 	savedNoSolver := ex.noSolver
+	savedKnown, savedBounds := ex.known, ex.bounds
 	var paths []mergedPath
 	var rec [][]subChoice
 	fail := ""
@@ -407,12 +414,24 @@ func (ex *Exec) callMerged(caller *frame, fn *ssa.Function, args []value, env []
 		ex.noSolver = savedNoSolver
 		ex.trace, ex.tracePos = oTrace, oTracePos
 		ex.pathCond, ex.pcPos = oPC, oPCPos
+		ex.known, ex.bounds = savedKnown, savedBounds
 		if !replay {
 			ex.inc.PopTo(oLevel)
 		}
 	}
+	cloneFacts := func() {
+		ex.known = make(map[int]bool, len(savedKnown))
+		for k, v := range savedKnown {
+			ex.known[k] = v
+		}
+		ex.bounds = make(map[int]ival, len(savedBounds))
+		for k, v := range savedBounds {
+			ex.bounds[k] = v
+		}
+	}
 	runOne := func() (ok bool) {
 		ex.journal = nil
+		cloneFacts()
 		defer func() {
 			// undo writes, newest first
 			if r := recover(); r != nil {
@@ -505,19 +524,103 @@ func (ex *Exec) callMerged(caller *frame, fn *ssa.Function, args []value, env []
 	if len(paths) == 0 {
 		panic(pathKill{"merged callee has no feasible path"})
 	}
-	// merge writes
-	merged, err := ex.mergePaths(paths)
-	if err != "" {
-		ex.mergeCache[key] = &mergeEntry{unmerge: true}
-		if verbose {
-			fmt.Printf("    merge of %s abandoned: %s\n", fn, err)
+	// group the callee paths by the shape of what they produced (pointer identities,
+	// dynamic types): paths of one group are merged with ite, groups are forked.
+	var groups [][]mergedPath
+	var sigs []string
+	for _, p := range paths {
+		sg := ex.pathSignature(p)
+		found := false
+		for gi, s2 := range sigs {
+			if s2 == sg {
+				groups[gi] = append(groups[gi], p)
+				found = true
+				break
+			}
 		}
-		return ex.callPlain(caller, fn, args, env, pos)
+		if !found {
+			sigs = append(sigs, sg)
+			groups = append(groups, []mergedPath{p})
+		}
+	}
+	gi := 0
+	if len(groups) > 1 {
+		conds := make([]*Term, len(groups))
+		for i, g := range groups {
+			var cs []*Term
+			for _, p := range g {
+				cs = append(cs, p.cond)
+			}
+			conds[i] = ex.tc.Or(cs...)
+		}
+		gi = ex.choose(conds)
+	}
+	merged, err := ex.mergePaths(groups[gi])
+	if err != "" {
+		panic(unsupported{"merge of " + fn.String() + " failed: " + err})
 	}
 	for _, w := range merged.writes {
 		*w.p = w.old // 'old' field carries the new merged value here
 	}
 	return merged.result
+}
+
+// pathSignature describes the non-scalar shape of a callee path's effects.
+func (ex *Exec) pathSignature(p mergedPath) string {
+	var sb strings.Builder
+	var walk func(v value)
+	walk = func(v value) {
+		switch x := v.(type) {
+		case *Term:
+			sb.WriteByte('T')
+		case timeV:
+			sb.WriteByte('t')
+		case structure:
+			sb.WriteByte('{')
+			for _, e := range x {
+				walk(e)
+			}
+			sb.WriteByte('}')
+		case array:
+			sb.WriteByte('[')
+			for _, e := range x {
+				walk(e)
+			}
+			sb.WriteByte(']')
+		case tuple:
+			sb.WriteByte('(')
+			for _, e := range x {
+				walk(e)
+			}
+			sb.WriteByte(')')
+		case iface:
+			if x.t == nil {
+				sb.WriteString("I0")
+			} else {
+				sb.WriteString("I<" + x.t.String() + ">")
+				walk(x.v)
+			}
+		case *value:
+			fmt.Fprintf(&sb, "P%p", x)
+		case []value:
+			if len(x) == 0 {
+				fmt.Fprintf(&sb, "S0:%v", x == nil)
+			} else {
+				fmt.Fprintf(&sb, "S%p:%d", &x[0], len(x))
+			}
+		case nil:
+			sb.WriteByte('N')
+		default:
+			fmt.Fprintf(&sb, "O%p", x)
+		}
+	}
+	walk(p.result)
+	sb.WriteByte('|')
+	for _, w := range p.writes {
+		fmt.Fprintf(&sb, "W%p=", w.p)
+		walk(w.old)
+	}
+	return sb.String()
 }
 
 func (ex *Exec) mergePaths(paths []mergedPath) (out mergedPath, err string) {
